@@ -279,25 +279,40 @@ func verifSpecCL(lowered string) primitive.ConsistencyLevel {
 
 // interceptSystemQuery: every branch answers with exactly one frame on the request's stream and
 // forwards nothing.
-//@ func proxy.client.interceptSystemQuery [C01, C09, C10]
-//@   requires c != nil && hdr != nil && c.proxy != nil && c.conn != nil && inv(c.proxy) && c.proxy.cluster != nil
+//   $useTried / $useOK: whether a backend session for the USE keyspace was requested and obtained;
+//   $useKs, $useVersion, $useCompression: the key it was requested for.
+//@ ghostvar $useTried bool
+//@ ghostvar $useOK bool
+//@ ghostvar $useKs string
+//@ ghostvar $useVersion primitive.ProtocolVersion
+//@ ghostvar $useCompression string
+//@ func proxy.client.interceptSystemQuery [C01, C07, C09, C10]
+//@   requires c != nil && hdr != nil && c.proxy != nil && c.conn != nil && inv(c.proxy) && c.proxy.cluster != nil && !$useTried
+//@   before proxy.Proxy.maybeCreateSession#1 set $useKs = arg2; $useVersion = arg1; $useCompression = arg3
+//@   after proxy.Proxy.maybeCreateSession#1 set $useTried = true; $useOK = (result1 == nil)
+//@   ensures use-tries-session: typeis(stmt, *parser.UseStatement) == $useTried
+//@   ensures use-session-key: $useTried ==> $useKs == old(as(stmt, *parser.UseStatement).Keyspace) && $useVersion == old(hdr.Version) && $useCompression == old(c.compression)
+//@   ensures use-success: $useTried && $useOK ==> c.keyspace == old(as(stmt, *parser.UseStatement).Keyspace) && typeis($lastMsg, *message.SetKeyspaceResult) && as($lastMsg, *message.SetKeyspaceResult).Keyspace == old(parser.IdentifierFromString(as(stmt, *parser.UseStatement).Keyspace).ID())
+//@   ensures use-failure: $useTried && !$useOK ==> c.keyspace == old(c.keyspace) && typeis($lastMsg, *message.ServerError)
+//@   ensures not-use: !$useTried ==> c.keyspace == old(c.keyspace)
+//@   ensures c.compression == old(c.compression) && c.codec == old(c.codec)
 //@   ensures one-frame: c.$sent == old(c.$sent) + 1 && c.$executed == old(c.$executed) && $reqStarted == old($reqStarted)
 //@   ensures on-stream: $lastClient == c && $lastStream == old(hdr.StreamId) && $lastVersion == old(hdr.Version)
 //@   ensures inv(c.proxy)
-//@   modifies *, c.$sent, $lastMsg, $lastStream, $lastVersion, $lastClient
+//@   modifies *, c.$sent, $lastMsg, $lastStream, $lastVersion, $lastClient, $useTried, $useOK, $useKs, $useVersion, $useCompression
 
 //@ ghostvar $qhHandled bool
 
 // handleQuery: a QUERY is answered locally iff the parser says it is handled (USE / system SELECT,
 // see parser.IsQueryHandled); otherwise it is forwarded, exactly once.
 //@ func proxy.client.handleQuery [C01, C09]
-//@   requires c != nil && raw != nil && raw.Header != nil && body != nil && c.proxy != nil && c.conn != nil && inv(c.proxy) && c.proxy.cluster != nil && !$selReached
+//@   requires c != nil && raw != nil && raw.Header != nil && body != nil && c.proxy != nil && c.conn != nil && inv(c.proxy) && c.proxy.cluster != nil && !$selReached && !$useTried
 //@   after parser.IsQueryHandled#1 set $qhHandled = result0
 //@   ensures local: $qhHandled ==> c.$executed == old(c.$executed) && c.$sent == old(c.$sent) + 1 && $reqStarted == old($reqStarted)
 //@   ensures forwarded: !$qhHandled ==> c.$executed == old(c.$executed) + 1
 //@   ensures one-answer: (c.$sent - old(c.$sent)) + ($reqStarted - old($reqStarted)) == 1 && c.$sent >= old(c.$sent) && $reqStarted >= old($reqStarted)
 //@   ensures on-stream: c.$sent == old(c.$sent) + 1 ==> $lastClient == c && $lastStream == old(raw.Header.StreamId)
-//@   modifies *, c.$sent, c.$executed, $reqStarted, $lastReq, $lastMsg, $lastStream, $lastVersion, $lastClient, $qhHandled, $selReached, $selDot, $selErr, $selQual, $selTable
+//@   modifies *, c.$sent, c.$executed, $reqStarted, $sends, $lastReq, $lastMsg, $lastStream, $lastVersion, $lastClient, $qhHandled, $selReached, $selDot, $selErr, $selQual, $selTable, $useTried, $useOK, $useKs, $useVersion, $useCompression
 
 //@ func proxy.client.handlePrepare [C01, C09]
 //@   requires c != nil && raw != nil && raw.Header != nil && body != nil && c.proxy != nil && c.conn != nil && inv(c.proxy) && c.preparedSystemQuery != nil && !$selReached
@@ -306,7 +321,7 @@ func verifSpecCL(lowered string) primitive.ConsistencyLevel {
 //@   ensures forwarded: !$qhHandled ==> c.$executed == old(c.$executed) + 1
 //@   ensures one-answer: (c.$sent - old(c.$sent)) + ($reqStarted - old($reqStarted)) == 1 && c.$sent >= old(c.$sent) && $reqStarted >= old($reqStarted)
 //@   ensures on-stream: c.$sent == old(c.$sent) + 1 ==> $lastClient == c && $lastStream == old(raw.Header.StreamId)
-//@   modifies *, c.$sent, c.$executed, $reqStarted, $lastReq, $lastMsg, $lastStream, $lastVersion, $lastClient, $qhHandled, $selReached, $selDot, $selErr, $selQual, $selTable
+//@   modifies *, c.$sent, c.$executed, $reqStarted, $sends, $lastReq, $lastMsg, $lastStream, $lastVersion, $lastClient, $qhHandled, $selReached, $selDot, $selErr, $selQual, $selTable
 
 //@ ghostvar $exId [16]byte
 //@ ghostvar $exLocal bool
@@ -314,12 +329,12 @@ func verifSpecCL(lowered string) primitive.ConsistencyLevel {
 // handleExecute: an EXECUTE of an id that this client prepared as a handled statement is answered
 // locally; any other id is forwarded.
 //@ func proxy.client.handleExecute [C01, C09]
-//@   requires c != nil && raw != nil && raw.Header != nil && body != nil && c.proxy != nil && c.conn != nil && inv(c.proxy) && c.proxy.cluster != nil
+//@   requires c != nil && raw != nil && raw.Header != nil && body != nil && c.proxy != nil && c.conn != nil && inv(c.proxy) && c.proxy.cluster != nil && !$useTried
 //@   after proxy.preparedIdKey#1 set $exId = result; $exLocal = mapHas(c.preparedSystemQuery, result)
 //@   ensures local: $exLocal ==> c.$executed == old(c.$executed) && c.$sent == old(c.$sent) + 1 && $reqStarted == old($reqStarted)
 //@   ensures forwarded: !$exLocal ==> c.$executed == old(c.$executed) + 1
 //@   ensures one-answer: (c.$sent - old(c.$sent)) + ($reqStarted - old($reqStarted)) == 1 && c.$sent >= old(c.$sent) && $reqStarted >= old($reqStarted)
-//@   modifies *, c.$sent, c.$executed, $reqStarted, $lastReq, $lastMsg, $lastStream, $lastVersion, $lastClient, $exId, $exLocal
+//@   modifies *, c.$sent, c.$executed, $reqStarted, $sends, $lastReq, $lastMsg, $lastStream, $lastVersion, $lastClient, $exId, $exLocal, $useTried, $useOK, $useKs, $useVersion, $useCompression
 
 //@ func proxy.preparedIdKey
 //@   trusted
@@ -368,7 +383,7 @@ func verifSpecCL(lowered string) primitive.ConsistencyLevel {
 // (error return) without any answer.
 //@ func proxy.client.Receive [C01, C13]
 //@   requires c != nil && c.proxy != nil && c.conn != nil && c.codec != nil && inv(c.proxy) && c.proxy.cluster != nil && c.preparedSystemQuery != nil
-//@   requires !$rxDecoded && !$rxBodyTried && !$selReached
+//@   requires !$rxDecoded && !$rxBodyTried && !$selReached && !$useTried
 //@   after frame.RawCodec.DecodeRawFrame#1 set $rxDecoded = (result1 == nil); $rxVersion = result0.Header.Version; $rxStream = result0.Header.StreamId
 //@   after frame.RawCodec.DecodeBody#1 set $rxBodyTried = true; $rxBodyOK = (result1 == nil); $rxMsg = result0.Message
 //@   ensures undecodable: !$rxDecoded ==> result != nil && c.$sent == old(c.$sent) && c.$executed == old(c.$executed) && $reqStarted == old($reqStarted)
@@ -378,7 +393,7 @@ func verifSpecCL(lowered string) primitive.ConsistencyLevel {
 //@   ensures local-opcodes: $rxBodyTried && $rxBodyOK && !typeis($rxMsg, *message.Prepare) && !typeis($rxMsg, *codecs.PartialExecute) && !typeis($rxMsg, *codecs.PartialQuery) && !typeis($rxMsg, *codecs.PartialBatch) ==> c.$sent == old(c.$sent) + 1 && c.$executed == old(c.$executed) && $reqStarted == old($reqStarted) && $lastStream == $rxStream && $lastClient == c
 //@   ensures handshake-replies: $rxBodyTried && $rxBodyOK && typeis($rxMsg, *message.Options) ==> typeis($lastMsg, *message.Supported)
 //@   ensures register-reply: $rxBodyTried && $rxBodyOK && typeis($rxMsg, *message.Register) ==> typeis($lastMsg, *message.Ready)
-//@   modifies *, c.$registered, c.$sent, c.$executed, $reqStarted, $lastReq, $lastMsg, $lastStream, $lastVersion, $lastClient, $qhHandled, $selReached, $selDot, $selErr, $selQual, $selTable, $exId, $exLocal, $rxDecoded, $rxVersion, $rxStream, $rxBodyTried, $rxBodyOK, $rxMsg
+//@   modifies *, c.$registered, c.$sent, c.$executed, $reqStarted, $sends, $lastReq, $lastMsg, $lastStream, $lastVersion, $lastClient, $qhHandled, $selReached, $selDot, $selErr, $selQual, $selTable, $exId, $exLocal, $useTried, $useOK, $useKs, $useVersion, $useCompression, $rxDecoded, $rxVersion, $rxStream, $rxBodyTried, $rxBodyOK, $rxMsg
 
 // ---------------------------------------------------------------------------------------------
 // C01 / C04 / C05: the request object as a monitor
